@@ -137,14 +137,17 @@ def statusLine101 : Bytes :=
   [72, 84, 84, 80, 47, 49, 46, 49, 32, 49, 48, 49, 32, 83, 119, 105, 116, 99, 104, 105, 110, 103, 32, 80, 114, 111,
    116, 111, 99, 111, 108, 115, 13, 10]
 
+/-- what `write_response` prints for a header map built by appending `hs` in order: `http`
+keeps one entry per (lower-cased) name in first-insertion order, and every value of an entry is
+printed on its own line right after the entry's first value -/
+def headerLines (hs : List (Bytes × Bytes)) : Bytes :=
+  ((HMap.ofList hs).iter.map fun (n, v) => headerLine n v).flatten
+
 /-- `write_response` for the 101 built by `create_parts` plus headers a callback appended
 (`http` prints header names in lower case) -/
 def response101 (acceptKey : Bytes) (extra : List (Bytes × Bytes)) : Bytes :=
   statusLine101
-    ++ headerLine (lowerAll srvRespConnection.1) srvRespConnection.2
-    ++ headerLine (lowerAll srvRespUpgrade.1) srvRespUpgrade.2
-    ++ headerLine (lowerAll srvRespAcceptName) acceptKey
-    ++ (extra.map fun (n, v) => headerLine (lowerAll n) v).flatten
+    ++ headerLines ([srvRespConnection, srvRespUpgrade, (srvRespAcceptName, acceptKey)] ++ extra)
     ++ crlf
 
 /-- what the user callback does -/
@@ -155,8 +158,7 @@ inductive Callback where
   deriving Repr, Inhabited
 
 def rejectBytes (statusLine : Bytes) (headers : List (Bytes × Bytes)) (body : Option Bytes) : Bytes :=
-  statusLine ++ crlf ++ (headers.map fun (n, v) => headerLine (lowerAll n) v).flatten ++ crlf
-    ++ (body.getD [])
+  statusLine ++ crlf ++ headerLines headers ++ crlf ++ (body.getD [])
 
 /-! ### the handshake machine -/
 
